@@ -321,6 +321,14 @@ func init() {
 func init() {
 	// net.Listen: sockets are outside the engine. A harness that provides vpNetListen (C28) gets
 	// the call instead and returns a stub listener; without one the path is unsupported.
+	// tls.Listen likewise: the harness's vpTLSListen gets the *tls.Config the server built
+	externals["crypto/tls.Listen"] = func(fr *frame, args []value) value {
+		fn := fr.i.mainPkg.Func("vpTLSListen")
+		if fn == nil {
+			fr.i.abort("unsupported", "tls.Listen (no vpTLSListen in the harness package)")
+		}
+		return call(fr.i, fr, 0, fn, args)
+	}
 	externals["net.Listen"] = func(fr *frame, args []value) value {
 		fn := fr.i.mainPkg.Func("vpNetListen")
 		if fn == nil {
